@@ -56,6 +56,10 @@ FRAGMENTS = [
     dict(name="gen_sized_write_n", file="src/body.rs", fn="write", kind="let", var="to_write",
          subst=[(r"w\.available\(\)", "avail"), (r"input\.len\(\)", "input_len")],
          params=[("avail", "N"), ("input_len", "N"), ("left_usize", "N")], ret="N", fallback="N.min (N.min avail input_len) left_usize"),
+    dict(name="gen_sized_left_usize", file="src/body.rs", fn="write", kind="let", var="left_usize", subst=[],
+         params=[("left", "N")], ret="N", fallback="N.min left 18446744073709551615"),
+    dict(name="gen_read_left_usize", file="src/body.rs", fn="read_limit", kind="let", var="left_usize", subst=[],
+         params=[("left", "N")], ret="N", fallback="N.min left 18446744073709551615"),
     dict(name="gen_chunk_to_write", file="src/body.rs", fn="write_chunk", kind="let", var="to_write",
          subst=[(r"input\.len\(\)", "input_len")],
          params=[("input_len", "N"), ("max_chunk", "N"), ("available", "N")], ret="N", fallback="N.min (N.min input_len max_chunk) available"),
@@ -323,6 +327,8 @@ class Parser(object):
                     return (str(STATUS[member]), "N")
                 if name == "Self" and member in ("NoBody", "CloseDelimited"):
                     return ({"NoBody": "RNoBody", "CloseDelimited": "RClose"}[member], "reader")
+                if name in ("usize", "u64") and member == "MAX":
+                    return ("18446744073709551615", "N")
                 if name == "Error":
                     if self.peek() == ("op", "("):
                         self.skip_parens()
@@ -420,7 +426,21 @@ class Parser(object):
             elif tok[0] == "eof":
                 raise Unsupported("unbalanced parentheses")
 
+    CASTS = {"u64": None, "usize": None, "u128": None, "u32": 4294967296, "u16": 65536, "u8": 256}
+
+    def casts(self, e):
+        """`e as T`: widening casts are the identity on N; narrowing ones keep the low bits."""
+        while self.peek() == ("id", "as"):
+            self.next()
+            ty = self.next()[1]
+            if ty not in self.CASTS:
+                raise Unsupported("cast to %s" % ty)
+            if self.CASTS[ty] is not None:
+                e = ("(N.modulo %s %d)" % (e[0], self.CASTS[ty]), "N")
+        return e
+
     def postfix(self, e):
+        e = self.casts(e)
         while self.peek() == ("op", "."):
             self.next()
             name = self.next()[1]
@@ -441,6 +461,7 @@ class Parser(object):
                 e = ("(%s %s)" % (self.known[name][0], e[0]), self.known[name][1])
             else:
                 raise Unsupported("method call .%s(..)" % name)
+            e = self.casts(e)
         return e
 
     # ---- statements
@@ -618,7 +639,6 @@ def translate_fragment(text, fr, consts, known=None):
         if not m:
             raise Unsupported("fragment not found")
         e = m.group("e")
-    e = re.sub(r"\s+as\s+(?:u64|usize)\b", "", e)
     for rx, rep in fr["subst"]:
         e = re.sub(rx, rep, e)
     p = Parser(tokenize(e), consts, None, dict(known or {}))
@@ -632,7 +652,7 @@ def translate_fragment(text, fr, consts, known=None):
         raise Unsupported("trailing tokens in fragment %s: %r" % (fr["name"], p.peek()))
     used = set(t[1] for t in p.t if t[0] == "id")
     unknown = [u for u in used if u not in p.vars and u not in ("if", "else", "min", "max", "saturating_sub", "true", "false", "matches", "NoneM", "SomeM",
-                                                                "Method", "Version", "StatusCode", "clone", "as_u16") + tuple(METHODS) + tuple(STATUS)
+                                                                "Method", "Version", "StatusCode", "clone", "as_u16", "as", "u8", "u16", "u32", "u64", "u128", "usize", "MAX") + tuple(METHODS) + tuple(STATUS)
                and u not in (known or {}) and not re.fullmatch(r"[A-Z][A-Z0-9_]*", u)]
     if unknown:
         raise Unsupported("fragment %s mentions %s, which is not one of its parameters" % (fr["name"], unknown))
